@@ -443,7 +443,7 @@ fn render_ok(s: &str) -> bool {
     sqok(&b[0..2]) && sqok(&b[2..4]) && (b.len() == 4 || b"qrbn".contains(&b[4]))
 }
 
-fn c13_text(rep: &mut Report, text: &str) {
+pub fn c13_text(rep: &mut Report, text: &str) {
     rep.eval();
     rep.count("op_move_from_str");
     rep.seen(hash_bytes(text.as_bytes()));
@@ -600,7 +600,23 @@ pub fn run_c13(ctx: &Ctx, rep: &mut Report) {
                     let bytes: Vec<u8> = (0..rng.below(9)).map(|_| rng.next() as u8).collect();
                     String::from_utf8_lossy(&bytes).into_owned()
                 }
-                6 => "e2e4".repeat(rng.below(300)) + rng.pick_str(&["", "q", "é"]),
+                6 => {
+                    if rng.chance(1, 2) {
+                        "e2e4".repeat(rng.below(300)) + rng.pick_str(&["", "q", "é"])
+                    } else {
+                        // a valid rendering with one character replaced by a non-ASCII character whose
+                        // low byte (or low 7 bits) equals the original: catches truncating casts
+                        let m = ChessMove::new(Square::new(rng.below(64) as u8), Square::new(rng.below(64) as u8), *rng.pick(&[None, None, Some(Piece::Queen), Some(Piece::Rook)]));
+                        let base = if rng.chance(1, 3) { format!("{}", Square::new(rng.below(64) as u8)) } else { format!("{}", m) };
+                        let mut t: Vec<char> = base.chars().collect();
+                        let i = rng.below(t.len());
+                        let c = t[i] as u32;
+                        let k = 1 + rng.below(255) as u32;
+                        let cand = if rng.chance(3, 4) { 0x100 * k + c } else { c + 0x80 * (1 + rng.below(3) as u32) * 2 };
+                        t[i] = std::char::from_u32(cand).unwrap_or('é');
+                        t.into_iter().collect()
+                    }
+                }
                 _ => format!("{}{}", sq_name(rng.below(64) as u8), random_text(rng, &["a", "h", "1", "8", "q", "é", " "], 4)),
             };
             if i == 0 {
@@ -871,6 +887,20 @@ fn c19_sequence<T: Val>(size: usize, nops: usize, rng: &mut Rng, rep: &mut Repor
     for _ in 0..4 {
         pool.push(rng.next());
     }
+    // pairs that agree in the low 32 (16, 48) bits and differ above: a truncated stored key would confuse them
+    let n0 = pool.len();
+    for i in 0..n0.min(6) {
+        let h = pool[rng.below(n0)];
+        pool.push(h ^ (1u64 << 32));
+        pool.push(h ^ (1u64 << (33 + rng.below(30))));
+        if i % 2 == 0 {
+            pool.push((h & 0xffff_ffff) | (rng.next() << 32));
+            pool.push((h & 0xffff) | (rng.next() << 16));
+            pool.push(h ^ (1u64 << 63));
+        }
+    }
+    pool.push(1u64 << 32);
+    pool.push(0xdead_beef_0000_0000);
     rep.count("ev_sequences");
     rep.count(&format!("ev_size_log2_{}", size.trailing_zeros()));
     let mut seq_hash = size as u64;
